@@ -25,6 +25,7 @@ CONSTANTS Clients,     \* client identifiers
           Ifaces,      \* interface names that can be registered
           MaxRounds,   \* how many times the serving call may be started
           MaxTimeouts, \* how many accept-deadline expiries the environment injects
+          MaxBinds,    \* how many listeners may be created
           Dev          \* set of deviations switched on
 
 VARIABLES
@@ -76,7 +77,7 @@ Init ==
 (* intended use: a Bind call is not in flight while the serving call starts up *)
 (* (it completes before, or begins once the service is running)               *)
 B_Check ==          \* 232-237, locked
-  /\ bdpc = "idle"
+  /\ bdpc = "idle" /\ nextid <= MaxBinds
   /\ spc = "idle" \/ (spc \notin {"getl", "setrun"} /\ running)
   /\ bdpc' = IF running THEN "refused" ELSE "checked"
   /\ UNCHANGED <<running, listener, lstate, nextid, counter, wg, names, spc, sl, tmo, acc, sret, rounds, expiries,
